@@ -148,7 +148,7 @@ fn apply_simple_kerning(
 ) {
     let mut ctx = hb_ot_apply_context_t::new(TableIndex::GPOS, face, buffer);
     ctx.set_lookup_mask(plan.kern_mask);
-    ctx.lookup_props = u32::from(lookup_flags::IGNORE_FLAGS);
+    ctx.lookup_props = u32::from(lookup_flags::IGNORE_MARKS);
 
     let horizontal = ctx.buffer.direction.is_horizontal();
 
